@@ -151,20 +151,22 @@ theorem clientRecvMany_inv (cfg : Cfg) (sid : Sid) : ∀ (dgs : List Bytes) (st 
       · exact h
       · rename_i s hs; exact InvC.touch h hs rfl rfl
 
-theorem connectDo_inv (cfg : Cfg) (st : State) (a : Addr) (h : Inv st) : Inv (connectDo cfg st a).1 := by
+theorem connectDo_inv (cfg : Cfg) (st : State) (a : Addr) (v6 : Bool) (h : Inv st) : Inv (connectDo cfg st a v6).1 := by
   unfold connectDo; exact InvC.insert h _
 
-theorem viaDo_inv (cfg : Cfg) (st : State) (lid : Lid) (a : Addr) (h : Inv st) : Inv (viaDo cfg st lid a).1 := by
+theorem viaDo_inv (cfg : Cfg) (st : State) (lid : Lid) (a : Addr) (v6 : Bool) (h : Inv st) : Inv (viaDo cfg st lid a v6).1 := by
   unfold viaDo
   simp only
   split
   · exact InvC.bump h
   · split
     · exact InvC.bump h
-    · cases hix : st.peerIndex a with
-      | none => exact InvC.insertIdx h { role := .serverPeer, peer := a, owner := lid, created := st.now, lastActivity := st.now,
-                                         lastWriteProgress := st.now } rfl
-      | some x => exact InvC.insert h _
+    · split
+      · exact InvC.bump h
+      · cases hix : st.peerIndex a with
+        | none => exact InvC.insertIdx h { role := .serverPeer, peer := a, owner := lid, created := st.now, lastActivity := st.now,
+                                           lastWriteProgress := st.now } rfl
+        | some x => exact InvC.insert h _
 
 theorem sendDo_inv (cfg : Cfg) (tok : Nat) (st : State) (sid : Sid) (p : Bytes) (a : Ans) (h : Inv st) : Inv (sendDo cfg tok st sid p a).1 := by
   unfold sendDo
@@ -175,7 +177,7 @@ theorem sendDo_inv (cfg : Cfg) (tok : Nat) (st : State) (sid : Sid) (p : Bytes) 
     cases hr : s.role with
     | client =>
       simp only
-      cases kernelAns p a with
+      cases kernelAns _ p a with
       | ok => exact InvC.touch h hs rfl (by simp [hr])
       | eagain =>
         simp only
@@ -191,7 +193,7 @@ theorem sendDo_inv (cfg : Cfg) (tok : Nat) (st : State) (sid : Sid) (p : Bytes) 
       | none => exact closeNow_inv cfg st sid _ h
       | some l =>
         simp only
-        cases kernelAns p a with
+        cases kernelAns _ p a with
         | ok => exact InvC.touch h hs rfl (by simp [hr])
         | eagain =>
           simp only
@@ -202,7 +204,7 @@ theorem sendDo_inv (cfg : Cfg) (tok : Nat) (st : State) (sid : Sid) (p : Bytes) 
           · exact h
         | err => exact closeNow_inv cfg st sid _ h
 
-theorem flushListener_inv (st : State) (lid : Lid) (as : List Ans) (h : Inv st) : Inv (flushListener st lid as).1 := by
+theorem flushListener_inv (cfg : Cfg) (st : State) (lid : Lid) (as : List Ans) (h : Inv st) : Inv (flushListener cfg st lid as).1 := by
   unfold flushListener
   split
   · exact h
@@ -346,24 +348,28 @@ theorem drainAll_no_accept (cfg : Cfg) (s' a : Nat) : ∀ (l : List Nat) (st : S
 
 theorem step_inv (cfg : Cfg) (tok : Nat) (st : State) (i : In) (h : Inv st) : Inv (step cfg tok st i).1 := by
   cases i with
-  | listen => exact h
+  | listen v6 => exact h
   | recvFrom lid dgs =>
     simp only [step]; split
     · exact h
-    · exact recvMany_inv cfg lid dgs st h
+    · split
+      · exact recvMany_inv cfg lid dgs st h
+      · exact h
   | clientRecv sid dgs =>
     simp only [step]; split
     · exact h
     · split
       · exact h
-      · exact clientRecvMany_inv cfg sid dgs st h
-  | connect a => exact connectDo_inv cfg st a h
-  | via lid a => exact viaDo_inv cfg st lid a h
+      · split
+        · exact clientRecvMany_inv cfg sid dgs st h
+        · exact h
+  | connect a v6 => exact connectDo_inv cfg st a v6 h
+  | via lid a v6 => exact viaDo_inv cfg st lid a v6 h
   | cmdSend sid p a =>
     simp only [step]; split
     · exact h
     · exact sendDo_inv cfg tok st sid p a h
-  | writableL lid as => exact flushListener_inv st lid as h
+  | writableL lid as => exact flushListener_inv cfg st lid as h
   | writableC sid as => exact writeClient_inv cfg st sid as h
   | close sid => exact closeNow_inv cfg st sid _ h
   | advance ms => exact h
@@ -607,31 +613,37 @@ theorem step_stable (cfg : Cfg) (hg : cfg.eraseGuarded = true) (tok : Nat) (st :
     · exact Or.inl h1
     · exact Or.inr ⟨w, h1⟩
   cases i with
-  | listen => exact Or.inl hix
+  | listen v6 => exact Or.inl hix
   | recvFrom lid dgs =>
     simp only [step]; split
     · exact Or.inl hix
-    · exact Or.inl (recvMany_keeps_idx cfg lid a sid dgs st hix)
+    · split
+      · exact Or.inl (recvMany_keeps_idx cfg lid a sid dgs st hix)
+      · exact Or.inl hix
   | clientRecv sid' dgs =>
     simp only [step]; split
     · exact Or.inl hix
     · split
       · exact Or.inl hix
-      · left; rw [clientRecvMany_idx]; exact hix
-  | connect a' => exact Or.inl hix
-  | via lid a' =>
+      · split
+        · left; rw [clientRecvMany_idx]; exact hix
+        · exact Or.inl hix
+  | connect a' v6 => exact Or.inl hix
+  | via lid a' v6 =>
     left
     simp only [step, viaDo]
     split
     · exact hix
     · split
       · exact hix
-      · dsimp only
-        split
-        · rename_i hn
-          have : a ≠ a' := by rintro rfl; rw [hix] at hn; cases hn
-          rw [upd_other _ _ _ _ this]; exact hix
+      · split
         · exact hix
+        · dsimp only
+          split
+          · rename_i hn
+            have : a ≠ a' := by rintro rfl; rw [hix] at hn; cases hn
+            rw [upd_other _ _ _ _ this]; exact hix
+          · exact hix
   | cmdSend sid' p ans =>
     simp only [step]; split
     · exact Or.inl hix
@@ -643,7 +655,7 @@ theorem step_stable (cfg : Cfg) (hg : cfg.eraseGuarded = true) (tok : Nat) (st :
         cases s.role with
         | client =>
           dsimp only
-          cases kernelAns p ans with
+          cases kernelAns _ p ans with
           | ok => exact Or.inl hix
           | eagain =>
             dsimp only
@@ -659,7 +671,7 @@ theorem step_stable (cfg : Cfg) (hg : cfg.eraseGuarded = true) (tok : Nat) (st :
           | none => exact lift h hix
           | some l =>
             dsimp only
-            cases kernelAns p ans with
+            cases kernelAns _ p ans with
             | ok => exact Or.inl hix
             | eagain =>
               dsimp only
@@ -735,17 +747,17 @@ theorem closeAll_no_accept (cfg : Cfg) (w : Why) (s' a : Nat) : ∀ (l : List Na
     simp only [closeAll, List.mem_append, not_or]
     exact ⟨closeNow_no_accept cfg st x w s' a, closeAll_no_accept cfg w s' a rest _⟩
 
-theorem flushLoopL_no_accept (lid : Lid) (s' a : Nat) : ∀ (q : List Item) (as : List Ans), Out.accept s' a ∉ (flushLoopL lid q as).2
+theorem flushLoopL_no_accept (lid : Lid) (v6 : Bool) (s' a : Nat) : ∀ (q : List Item) (as : List Ans), Out.accept s' a ∉ (flushLoopL lid v6 q as).2
   | [], _ => by simp [flushLoopL]
   | it :: rest, as => by
     simp only [flushLoopL]
-    split <;> simp [flushLoopL_no_accept lid s' a rest]
+    split <;> simp [flushLoopL_no_accept lid v6 s' a rest]
 
-theorem flushLoopC_no_accept (sid : Sid) (s' a : Nat) : ∀ (q : List Item) (as : List Ans), Out.accept s' a ∉ (flushLoopC sid q as).2.1
+theorem flushLoopC_no_accept (sid : Sid) (v6 : Bool) (s' a : Nat) : ∀ (q : List Item) (as : List Ans), Out.accept s' a ∉ (flushLoopC sid v6 q as).2.1
   | [], _ => by simp [flushLoopC]
   | it :: rest, as => by
     simp only [flushLoopC]
-    split <;> simp [flushLoopC_no_accept sid s' a rest]
+    split <;> simp [flushLoopC_no_accept sid v6 s' a rest]
 
 theorem clientRecvMany_no_accept (cfg : Cfg) (sid : Sid) (s' a : Nat) : ∀ (ds : List Bytes) (st : State),
     Out.accept s' a ∉ (clientRecvMany cfg sid st ds).2
@@ -759,23 +771,29 @@ theorem clientRecvMany_no_accept (cfg : Cfg) (sid : Sid) (s' a : Nat) : ∀ (ds 
 theorem step_no_accept (cfg : Cfg) (tok : Nat) (st : State) (i : In) (a sid : Nat) (hix : st.peerIndex a = some sid) (s' : Nat) :
     Out.accept s' a ∉ (step cfg tok st i).2 := by
   cases i with
-  | listen => simp [step]
+  | listen v6 => simp [step]
   | recvFrom lid dgs =>
     simp only [step]; split
     · simp
-    · exact recvMany_no_accept cfg lid a sid s' dgs st hix
+    · split
+      · exact recvMany_no_accept cfg lid a sid s' dgs st hix
+      · simp
   | clientRecv sid' dgs =>
     simp only [step]; split
     · simp
     · split
       · simp
-      · exact clientRecvMany_no_accept cfg sid' s' a dgs st
-  | connect a' => simp [step, connectDo]
-  | via lid a' =>
+      · split
+        · exact clientRecvMany_no_accept cfg sid' s' a dgs st
+        · simp
+  | connect a' v6 => simp [step, connectDo]
+  | via lid a' v6 =>
     simp only [step, viaDo]
     split
     · simp
-    · split <;> simp
+    · split
+      · simp
+      · split <;> simp
   | cmdSend sid' p ans =>
     simp only [step]; split
     · simp
@@ -787,7 +805,7 @@ theorem step_no_accept (cfg : Cfg) (tok : Nat) (st : State) (i : In) (a sid : Na
         cases s.role with
         | client =>
           dsimp only
-          cases kernelAns p ans with
+          cases kernelAns _ p ans with
           | ok => simp
           | eagain =>
             dsimp only
@@ -803,7 +821,7 @@ theorem step_no_accept (cfg : Cfg) (tok : Nat) (st : State) (i : In) (a sid : Na
           | none => exact closeNow_no_accept _ _ _ _ _ _
           | some l =>
             dsimp only
-            cases kernelAns p ans with
+            cases kernelAns _ p ans with
             | ok => simp
             | eagain =>
               dsimp only
@@ -818,7 +836,7 @@ theorem step_no_accept (cfg : Cfg) (tok : Nat) (st : State) (i : In) (a sid : Na
     split
     · simp
     · split
-      · exact flushLoopL_no_accept lid s' a _ _
+      · exact flushLoopL_no_accept lid _ s' a _ _
       · simp
   | writableC sid' as =>
     simp only [step, writeClient]
@@ -833,8 +851,8 @@ theorem step_no_accept (cfg : Cfg) (tok : Nat) (st : State) (i : In) (a sid : Na
         split
         · split
           · simp only [List.mem_append, not_or]
-            exact ⟨flushLoopC_no_accept sid' s' a _ _, closeNow_no_accept _ _ _ _ _ _⟩
-          · exact flushLoopC_no_accept sid' s' a _ _
+            exact ⟨flushLoopC_no_accept sid' _ s' a _ _, closeNow_no_accept _ _ _ _ _ _⟩
+          · exact flushLoopC_no_accept sid' _ s' a _ _
         · simp
   | close sid' => exact closeNow_no_accept _ _ _ _ _ _
   | advance ms => simp [step]
